@@ -332,4 +332,19 @@ theorem renderNodes_sub (ns : Nodes) (tmpl : Name) (A K : List Name) (dis : Bool
     · exact List.mem_append_right _ (renderNodes_sub ns tmpl _ K dis _ e h')
 end
 
+mutual
+theorem noDead_of_noParts_node (n : Node) (d : Bool) (h : partNamesNode n = []) : noDeadIncNode n d = true := by
+  match n with
+  | .plain hd cs => simp only [partNamesNode] at h; simp only [noDeadIncNode]; exact noDead_of_noParts_nodes cs _ h
+  | .part .. => simp [partNamesNode] at h
+theorem noDead_of_noParts_nodes (ns : Nodes) (d : Bool) (h : partNamesNodes ns = []) : noDeadIncNodes ns d = true := by
+  match ns with
+  | .nil => rfl
+  | .cons n ns =>
+    simp only [partNamesNodes, List.append_eq_nil_iff] at h
+    simp only [noDeadIncNodes, Bool.and_eq_true]
+    exact ⟨noDead_of_noParts_node n d h.1, noDead_of_noParts_nodes ns d h.2⟩
+end
+
+
 end LiquidVerif.Analysis
